@@ -104,7 +104,7 @@ theorem good_init (c : Bool) : Good (newState c) {} := by
   · intro s hs; simp at hs
   · intro j m0 c h; simp at h
   · intro _
-    exact ⟨inv_init [] [], fun t it h => by simp [newState] at h⟩
+    exact ⟨inv_init [] [], fun t it h => by simp [newState] at h, rfl⟩
   · intro _; exact Or.inl rfl
   · intro _ j h c hh; simp [newState] at hh
   · intro _ j j' h h' c c' hh; simp [newState] at hh
@@ -125,7 +125,7 @@ theorem good_mutate {st : RSetState} {tr : Track} (hg : Good st tr) (m' : Member
     show m0 ≤ tr.muts + 1
     omega
   · intro _
-    exact ⟨inv_init m'.src [], fun t it h => by simp [invalidate] at h⟩
+    exact ⟨inv_init m'.src [], fun t it h => by simp [invalidate] at h, rfl⟩
   · intro _; exact Or.inl rfl
   · intro _ j h c _ ho; exact (hnot j c ho).elim
   · intro _ j j' h h' c c' _ _ ho; exact (hnot j c ho).elim
@@ -185,9 +185,9 @@ theorem resumeCached_cur {st : RSetState} {tr : Track} (hg : Good st tr) (hco : 
       { tr with opened := tr.opened.set j (tr.muts, c + (((specL tr.m).drop c).take k).length) } := by
   obtain ⟨hi, hp⟩ := hg.cinv hco
   obtain ⟨hgen, it, hit, hq, hyl⟩ := hg.hc hco j h c hh ho
-  have hsolo : Solo st.cur h.tid := ⟨hi, fun t' it' _ h' => hp t' it' h'⟩
+  have hsolo : Solo st.cur h.tid := ⟨hi, fun t' it' _ h' => hp.1 t' it' h'⟩
   obtain ⟨hs', hsrc, hlen, hoth, it', hit', hq', hpk', hvals, hy'⟩ :=
-    takeVals_spec h.tid k st.cur it [] hsolo hit hq (hp _ it hit)
+    takeVals_spec h.tid k st.cur it [] hsolo hit hq (hp.1 _ it hit)
   have hcur : h.gen = st.old.length := by rw [hgen, hg.gens]
   unfold resumeCached
   simp only [hcur, ↓reduceIte]
@@ -216,7 +216,7 @@ theorem resumeCached_cur {st : RSetState} {tr : Track} (hg : Good st tr) (hco : 
       cases ho'; exact Nat.le_refl _
     · rw [getElem?_set_other _ _ _ _ e] at ho'; exact hg.older j' m0 c' ho'
   · intro _
-    refine ⟨hs'.inv, fun t' it2 h2 => ?_⟩
+    refine ⟨hs'.inv, fun t' it2 h2 => ?_, (takeVals_endErr h.tid k st.cur [] hi).trans hp.2⟩
     by_cases e : t' = h.tid
     · subst e
       rw [show (takeVals st.cur h.tid k []).1.its[h.tid]? = some it' from hit'] at h2
@@ -359,7 +359,7 @@ theorem good_create_cached {st : RSetState} {tr : Track} (hg : Good st tr) (hco 
   have hs0 : Solo s0 st.cur.its.length := by
     refine ⟨hi0, fun t' it' e h => ?_⟩
     rcases getElem?_snoc_cases _ _ _ _ h with ⟨_, h'⟩ | ⟨e', _⟩
-    · exact hp t' it' h'
+    · exact hp.1 t' it' h'
     · exact absurd e' e
   obtain ⟨hs1, hsrc, hlen, hoth, it', hit', hq', hy', hpk'⟩ :=
     runCreate_spec st.cur.its.length 8 s0 _ hs0 hit0 rfl rfl
@@ -378,7 +378,7 @@ theorem good_create_cached {st : RSetState} {tr : Track} (hg : Good st tr) (hco 
     · exact hg.older j m0 c h'
     · cases e; exact Nat.le_refl _
   · intro _
-    refine ⟨hs1.inv, fun t' it2 h2 => ?_⟩
+    refine ⟨hs1.inv, fun t' it2 h2 => ?_, (runCreate_endErr st.cur.its.length 8 s0 hi0).trans hp.2⟩
     by_cases e : t' = st.cur.its.length
     · subst e
       rw [show (runCreate s0 st.cur.its.length 8).its[st.cur.its.length]? = some it' from hit'] at h2
